@@ -42,6 +42,30 @@ pub fn fees_of(spec: &FeeSpec) -> Fees {
     }
 }
 
+/// Published default fee tables (docs "API fees and pricing"); regtest charges nothing.
+pub fn default_fees(net: Network) -> Fees {
+    let (unit, max_big, small, small_max, send_base, per_byte): (u128, u128, u128, u128, u128, u128) = match net {
+        Network::Mainnet => (50_000_000, 10_000_000_000, 10_000_000, 100_000_000, 5_000_000_000, 20_000_000),
+        Network::Testnet => (20_000_000, 4_000_000_000, 4_000_000, 40_000_000, 2_000_000_000, 8_000_000),
+        Network::Regtest => return Fees::default(),
+    };
+    let rate = if net == Network::Mainnet { 10 } else { 4 };
+    Fees {
+        get_utxos_base: unit,
+        get_utxos_cycles_per_ten_instructions: rate,
+        get_utxos_maximum: max_big,
+        get_balance: small,
+        get_balance_maximum: small_max,
+        get_current_fee_percentiles: small,
+        get_current_fee_percentiles_maximum: small_max,
+        send_transaction_base: send_base,
+        send_transaction_per_byte: per_byte,
+        get_block_headers_base: unit,
+        get_block_headers_cycles_per_ten_instructions: rate,
+        get_block_headers_maximum: max_big,
+    }
+}
+
 fn flag(b: bool) -> Flag {
     if b {
         Flag::Enabled
@@ -267,7 +291,11 @@ impl World {
         let now = genesis_time + 3600;
         canister::begin_message(Budget { pause_at: 0 }, now, 0);
         canister::init(init)?;
-        let fees = canister::get_config()?.fees;
+        // the model's fee table comes from the specification, not from the canister
+        let fees = match &cfg.fees {
+            Some(spec) => fees_of(spec),
+            None => default_fees(network),
+        };
         let g = &net.blocks[&0];
         let tree = RefTree::new(0, g.difficulty, 0);
         Ok(World {
